@@ -297,6 +297,11 @@ impl<F: Field> Circuit<F> {
                     if out_idx >= defined.len() {
                         defined.resize(out_idx + 1, false);
                     }
+                    // A slot that already has a creator (two constants / public inputs
+                    // connected to each other): this row reads it instead.
+                    if defined[out_idx] {
+                        preprocessed.increment_ext_reads(&[*out]);
+                    }
                     defined[out_idx] = true;
                 }
                 // Public: creates the output witness value. Store D-scaled out index.
@@ -307,6 +312,9 @@ impl<F: Field> Circuit<F> {
                     let out_idx = out.0 as usize;
                     if out_idx >= defined.len() {
                         defined.resize(out_idx + 1, false);
+                    }
+                    if defined[out_idx] {
+                        preprocessed.increment_ext_reads(&[*out]);
                     }
                     defined[out_idx] = true;
                 }
